@@ -214,7 +214,7 @@ def archive_family(pid, cfgs, mode, emit, rule, note, level="model_checking", as
 
 
 def arch_cfgs():
-    return ["Archive_A", "Archive_B"] if tier() == "quick" else ["Archive_A", "Archive_B", "Archive_Big", "Archive_A4"]
+    return ["Archive_A", "Archive_B", "Archive_C"] if tier() == "quick" else ["Archive_A", "Archive_B", "Archive_C", "Archive_Big", "Archive_A4"]
 
 
 def check_C03():
